@@ -74,6 +74,27 @@ class Prop:
                     ctx.fail('decode() raised an exception outside the library hierarchy',
                              {'cmd': op.split()[0] + ' ' + op.split()[1], 'line': op.split()[2]}, 'AISBaseException', o,
                              {'kind': 'decode-escape', 'exc': o[4:]})
+        # (a2) truncated payloads: every bit length of a payload of every type (fill bits 0..5 follow from
+        # the length), also lengths that end right in front of / inside the variant discriminator bits
+        ops = []
+        for t in list(range(0, 29)) + [31, 63]:
+            full = 6 + rng.choice([162, 162, 300, 420])
+            bits = gen.bits_of_int(t, 6) + ''.join(rng.choice('01') for _ in range(full - 6))
+            for variant in range(3 if t in (22, 24, 25, 26) else 1):
+                b = list(bits)
+                if t in (24, 25, 26):
+                    b[38], b[39] = '01'[variant & 1], '01'[variant >> 1]
+                if t == 22:
+                    b[139] = '01'[variant & 1]
+                b = ''.join(b)
+                for L in range(0, min(len(b), 200) + 1):
+                    ops.append('decode 0 %s' % impl.hx(gen.render(b[:L])[0] if L else gen.sentence('AIVDM', 1, 1, '', 'A', '', 0)))
+        outs = ctx.corr(ops, impl.step, 'decode-prefix', nontrivial=lambda l, o: not o.startswith('ERR'))
+        for op, o in zip(ops, outs):
+            if o.startswith('ERR:') and o[4:] not in LIB:
+                ctx.fail('decode() of a truncated payload raised an exception outside the library hierarchy',
+                         {'cmd': 'decode 0', 'line': op.split()[2]}, 'AISBaseException', o,
+                         {'kind': 'decode-escape', 'exc': o[4:]})
         # (b) readers: never raise; bystanders unchanged
         other_single = gen.render(gen.payload_bits(rng, 'MessageType18'), chan='A')[0]
         three = base['three']
